@@ -190,8 +190,10 @@ def desc_from_json(j):
 
 
 # ------------------------------------------------------------- one call
-def call_ilength(desc, s):
-    """fresh curve, recorded call.  Returns dict(outcome, t, tables ...)"""
+def call_ilength(desc, s, kw=None):
+    """fresh curve, recorded call with the explicit keyword arguments kw (s_tol, maxits,
+    error, min_depth).  Returns dict(outcome, t, tables ...)"""
+    kw = kw or {}
     curve = mk_curve(desc)
     Rec.calls, Rec.last, Rec.repeats = [], None, 0
     # quadratics are fast: let the real code run into its own exception
@@ -202,7 +204,7 @@ def call_ilength(desc, s):
         warnings.simplefilter('always')
         Rec.on = True
         try:
-            t = guarded(lambda: curve.ilength(s), 20)
+            t = guarded(lambda: curve.ilength(s, **kw), 20)
             res['outcome'] = 'ret'
             res['t'] = float(t)
         except StallAbort:
@@ -231,10 +233,25 @@ def call_ilength(desc, s):
         tb = {}
         for (i, t0, t1, v) in Rec.calls:
             if i == id(sg) and t0 == 0.0:
-                tb[t1] = v
+                tb.setdefault(t1, v)        # the first evaluation is the one the search / bisection used
         tables.append(tb)
     res['tables'] = tables
     res['curve'] = curve
+    res['kw'] = kw
+    # Path: which segment the code's search selects, the s it hands to it, and the last
+    # (t, length(0,t)) the segment's bisection evaluated — the value the call returned through t2T
+    if desc['type'] == 'path':
+        lsum = 0.0
+        for k, (sg, tb) in enumerate(zip(segs, tables)):
+            lk = tb.get(1.0)
+            if lk is None:
+                break
+            if lsum <= s <= lsum + lk:
+                last = [(t1, v) for (i, t0, t1, v) in Rec.calls if i == id(sg) and t0 == 0.0 and t1 != 1.0]
+                res['inner'] = {'k': k, 's_seg': min(s - lsum, lk), 'len_k': lk, 'queries': len(last),
+                                'last': last[-1] if last else None, 'is_line': desc['segs'][k][0] == 'line'}
+                break
+            lsum += lk
     return res
 
 
@@ -287,7 +304,6 @@ OKDEF = r'''
 From Coq Require Import PrimFloat.
 From SVP Require Import Base.FloatK Model.Length.
 Open Scope float_scope.
-Definition tol : float := 0x1.19799812dea11p-40.          (* ILENGTH_S_TOL = 1e-12 *)
 (* which variant of the code is installed (detected by the harness's probes) *)
 Definition REP : bool := @REP@.
 Definition PREP : bool := @PREP@.
@@ -298,23 +314,23 @@ Fixpoint lookup (tb : table) (t : float) : float :=
   | (k, v) :: r => if PrimFloat.eqb k t then v else lookup r t
   end.
 (* (segments: (is_line, table of length(0,.), L_k), t2T bounds (start_k, end_k), path?, L, s,
-    observed exit code, observed t) *)
+    requested s_tol, requested maxits, observed exit code, observed t) *)
 Definition casety : Type :=
-  (list (bool * table * float) * list (float * float) * bool * float * float * nat * float)%type.
+  (list (bool * table * float) * list (float * float) * bool * float * float * float * nat * nat * float)%type.
 Definition t2T (bounds : list (float * float)) (k : nat) (t : float) : float :=
   let ab := nth k bounds (nan, nan) in
   PrimFloat.add (PrimFloat.mul (PrimFloat.sub (snd ab) (fst ab)) t) (fst ab).
 Definition run (c : casety) : ires (K:=float) :=
-  let '(segs, bounds, is_path, L, s, code, et) := c in
+  let '(segs, bounds, is_path, L, s, tol, maxits, code, et) := c in
   if is_path then
     inv_arclength_path NumF REP PREP (t2T bounds)
-      (map (fun x => (fst (fst x), lookup (snd (fst x)), snd x)) segs) L s tol 10000
+      (map (fun x => (fst (fst x), lookup (snd (fst x)), snd x)) segs) L s tol maxits
   else match segs with
-       | (il, tb, _) :: _ => inv_arclength_seg NumF REP il (lookup tb) L s tol 10000
+       | (il, tb, _) :: _ => inv_arclength_seg NumF REP il (lookup tb) L s tol maxits
        | nil => EAssert
        end.
 Definition ok (c : casety) : nat :=
-  let '(segs, bounds, is_path, L, s, code, et) := c in
+  let '(segs, bounds, is_path, L, s, tol, maxits, code, et) := c in
   match run c, code with
   | IRet t, 0%nat => if PrimFloat.eqb t et then 0%nat else 2%nat
   | IStall t, 1%nat => if PrimFloat.eqb t et then 0%nat else 2%nat
@@ -346,8 +362,12 @@ def case_term(desc, res, L):
         for k in range(len(curve)):
             a = sum(curve._lengths[:k])
             bounds.append('(%s, %s)' % (fl(a), fl(a + curve._lengths[k])))
-    return '(%s, %s, %s, %s, %s, %d%%nat, %s)' % (coq_list(sterms), coq_list(bounds), 'true' if is_path else 'false',
-                                             fl(L), fl(res['s']), OUT_CODE[res['outcome']], fl(res.get('t', 0.0)))
+    kw = res.get('kw') or {}
+    if not is_path:
+        L = res['tables'][0].get(1.0, L)           # curve_length as the call computed it
+    return '(%s, %s, %s, %s, %s, %s, %d%%nat, %d%%nat, %s)' % (
+        coq_list(sterms), coq_list(bounds), 'true' if is_path else 'false', fl(L), fl(res['s']),
+        fl(kw.get('s_tol', S_TOL)), kw.get('maxits', 10000), OUT_CODE[res['outcome']], fl(res.get('t', 0.0)))
 
 
 def classify(desc, res):
@@ -378,6 +398,7 @@ def run(rep, tier, seed, replay=None):
             r = json.load(open(replay))['replay']
             curves = [desc_from_json(r['curve'])]
             forced_s = [float.fromhex(r['s'])] if 's' in r else None
+            replay_kw = r.get('kwargs') or {}
         else:
             curves = []
             import glob, os
@@ -391,6 +412,7 @@ def run(rep, tier, seed, replay=None):
                 curves = curves + gen_curves(rng, 12) + gen_curves(rng, 12)
             forced_s = None
         nrand = 6 if quick else 16
+        narg = 4 if quick else 10
         terms, meta = [], []
         evals, nontriv, dist = 0, 0, {}
         stalls, slowest = 0, 0.0
@@ -425,16 +447,35 @@ def run(rep, tier, seed, replay=None):
             svals = sorted(set(x for x in svals if 0 <= x <= L))
             outside = [] if forced_s is not None else [-1.0, -5e-324, math.nextafter(L, math.inf), L * 1.5 + 1]
             prev_t, prev_s = None, None
-            for s in svals + outside:
-                res = call_ilength(desc, s)
+            calls = [(x, {}) for x in svals + outside]
+            # explicit, non-default arguments (tighter AND looser s_tol, maxits, error, min_depth)
+            if forced_s is None:
+                for _ in range(narg):
+                    kw = {}
+                    kw['s_tol'] = rng.choice([1e-16, 1e-14, 1e-9, 1e-6, 1e-3 * L])
+                    if rng.random() < 0.5:
+                        kw['maxits'] = rng.choice([2000, 40, 12])
+                    if rng.random() < 0.4:
+                        kw['error'] = rng.choice([1e-9, 1e-6])
+                    if rng.random() < 0.4:
+                        kw['min_depth'] = rng.choice([3, 7])
+                    calls.append((rng.uniform(0, L), kw))
+            elif replay_kw:
+                calls = [(x, replay_kw) for x in svals]
+            for s, kw in calls:
+                res = call_ilength(desc, s, kw)
                 evals += 1
                 slowest = max(slowest, res['secs'])
                 inside = 0 <= s <= L
+                req_tol = kw.get('s_tol', S_TOL)
+                atol = max(req_tol, (8 if desc['type'] == 'path' else 4) * ulpL)
                 rp = {'kind': 'ilength', 'curve': desc_json(desc), 's': common.fhex(s), 'L': common.fhex(L),
                       'repr': repr(res['curve'])[:600], 'outcome': res['outcome'], 'msg': res.get('msg'),
-                      't': res.get('t'), 'scale': desc['scale'], 'how': './check C07 --replay <this file>'}
+                      't': res.get('t'), 'scale': desc['scale'], 'kwargs': kw, 'how': './check C07 --replay <this file>'}
                 o = res['outcome']
-                if not inside:
+                if o == 'maxits' and kw.get('maxits', 10000) < 1100:
+                    pass            # a requested iteration budget below 1075 halvings may legitimately run out (model tie judges it)
+                elif not inside:
                     if o != 'valueerror':
                         rep.violation('C07: ilength(%r) with s outside [0, L=%r] did not raise ValueError (%s)' % (s, L, o),
                                       rp, key='ilength-outside-no-valueerror')
@@ -463,21 +504,37 @@ def run(rep, tier, seed, replay=None):
                             with warnings.catch_warnings():
                                 warnings.simplefilter('ignore')
                                 try:
-                                    back = float(mk_curve(desc).length(0, t))
+                                    lkw = {k_: kw[k_] for k_ in ('error', 'min_depth') if k_ in kw}
+                                    # Path.length(T0, T1, error) measures its pieces with the DEFAULT error: with a
+                                    # non-default error a path is judged on the segment level below instead
+                                    back = None if (lkw and desc['type'] == 'path') else float(mk_curve(desc).length(0, t, **lkw))
                                 except Exception as e:        # noqa  (C05's subject: T2t fall-off)
                                     back = None
                             if back is not None and abs(back - s) > atol:
-                                rep.violation('C07: length(0, ilength(%r)) = %r differs from s by %.3g > max(s_tol, %d ulp(L)) = %.3g'
-                                              % (s, back, abs(back - s), 8 if desc['type'] == 'path' else 4, atol), rp,
+                                rep.violation('C07: length(0, ilength(%r%s)) = %r differs from s by %.3g > max(requested s_tol %g, %d ulp(L)) = %.3g'
+                                              % (s, ''.join(', %s=%r' % kv for kv in sorted(kw.items())), back, abs(back - s), req_tol,
+                                                 8 if desc['type'] == 'path' else 4, atol), rp,
                                               key='ilength-inverse-tolerance' + ('-path' if desc['type'] == 'path' else ''))
+                            # Path: the segment-level statement on the implementation's own numbers — the value
+                            # length(0, t_seg) the selected segment's bisection stopped at vs the s handed to it
+                            inn = res.get('inner')
+                            if inn and not inn['is_line'] and inn['last'] and o in ('ret', 'stallret'):
+                                serr = abs(inn['last'][1] - inn['s_seg'])
+                                if serr > max(req_tol, 4 * ulpL):
+                                    rep.violation('C07: Path.ilength(%r%s): segment %d stopped at length(0,t) = %r for s_seg = %r: off by %.3g > '
+                                                  'max(requested s_tol %g, 4 ulp(L)) = %.3g'
+                                                  % (s, ''.join(', %s=%r' % kv for kv in sorted(kw.items())), inn['k'], inn['last'][1],
+                                                     inn['s_seg'], serr, req_tol, max(req_tol, 4 * ulpL)), rp,
+                                                  key='ilength-path-segment-tolerance')
                             if s == 0 and t != 0:
                                 rep.violation('C07: ilength(0) = %r' % t, rp, key='ilength-ends')
                             if s == L and t != 1:
                                 rep.violation('C07: ilength(L) = %r' % t, rp, key='ilength-ends')
-                            if prev_t is not None and t < prev_t - 1e-9:
+                            if not kw and prev_t is not None and t < prev_t - 1e-9:
                                 rep.violation('C07: not monotone: ilength(%r) = %r > ilength(%r) = %r' % (prev_s, prev_t, s, t), rp,
                                               key='ilength-not-monotone')
-                            prev_t, prev_s = t, s
+                            if not kw:
+                                prev_t, prev_s = t, s
                 # ---- model tie
                 if o in OUT_CODE:
                     try:
